@@ -296,6 +296,68 @@ def hoistBodyG (kw : Bool) (body : List DS) : List DS :=
 /-- `hoistVars` as it is in /repo now -/
 def hoistBody (body : List DS) : List DS := hoistBodyG isShadowedKnowsWhile body
 
+mutual
+/-- the name `x` occurs in an expression (as the visitor of `assignedByVar` sees `*js.Var` nodes) -/
+def namedE (x : String) : DE → Bool
+  | .var y _ => y == x
+  | .assign y _ e => y == x || namedE x e
+  | .postinc y _ => y == x
+  | .call f a => namedE x f || namedEL x a
+  | .bin _ a b => namedE x a || namedE x b
+  | .not e => namedE x e
+  | .typeof e => namedE x e
+  | .cond c a b => namedE x c || namedE x a || namedE x b
+  | .comma l => namedEL x l
+  | .group e => namedE x e
+  | .hdecl l => namedEL x l
+  | _ => false
+def namedEL (x : String) : List DE → Bool
+  | [] => false
+  | a :: t => namedE x a || namedEL x t
+end
+
+def namedOE (x : String) : Option DE → Bool
+  | none => false
+  | some e => namedE x e
+
+/-- (declared, assigned, used) of the visitor on the items of one `var` declaration: the bindings are not uses, the
+    initialisers are walked -/
+def visitItems (x : String) : List DE → Bool × Bool × Bool
+  | [] => (false, false, false)
+  | .var y _ :: t => let r := visitItems x t; (y == x || r.1, r.2.1, r.2.2)
+  | .assign y _ e :: t => let r := visitItems x t; (y == x || r.1, y == x || r.2.1, namedE x e || r.2.2)
+  | _ :: t => visitItems x t
+
+def or3 (a b : Bool × Bool × Bool) : Bool × Bool × Bool := (a.1 || b.1, a.2.1 || b.2.1, a.2.2 || b.2.2)
+
+mutual
+/-- the visitor of `assignedByVar` below a statement, not into nested functions -/
+def visitS (x : String) : DS → Bool × Bool × Bool
+  | .expr e => (false, false, namedE x e)
+  | .decl k items =>
+    if k == .var || k == .hoisted then visitItems x items
+    else (false, false, items.any (fun i => match i with
+      | .var y _ => y == x
+      | .assign y _ e => y == x || namedE x e
+      | _ => false))
+  | .ifS c t e => or3 (false, false, namedE x c) (or3 (visitS x t) (visitS x e))
+  | .block l => visitL x l
+  | .forS _ i c p b => or3 (visitS x i) (or3 (false, false, namedOE x c || namedOE x p) (visitL x b))
+  | .ret e => (false, false, namedOE x e)
+  | .throw e => (false, false, namedE x e)
+  | .tryS b y _ cb => or3 (visitL x b) (or3 (false, false, y == x) (visitL x cb))
+  | _ => (false, false, false)
+def visitL (x : String) : List DS → Bool × Bool × Bool
+  | [] => (false, false, false)
+  | s :: t => or3 (visitS x s) (visitL x t)
+end
+
+/-- `assignedByVar(block, name)` of docs/C01D-fix-2.patch: the catch block redeclares the name with `var` and either
+    initialises it or uses the name -/
+def assignsVarL (x : String) (cb : List DS) : Bool :=
+  let r := visitL x cb
+  r.1 && (r.2.1 || r.2.2)
+
 /-- trigger of the open known finding K-C01D-1 on one function body: the declaration that receives the hoisted names is
     the empty head of a `while` loop standing in a block, and one of the hoisted names is declared with let / const in
     that block -/
@@ -402,14 +464,28 @@ def vanishesL : List DS → Bool
   | s :: t => vanishes s && vanishesL t
 end
 
+/-- a let / const declaration whose names are not mentioned in `rest` and that has an initialiser which reads variables
+    but counts as free of side effects: `optimizeStmt` drops it when it ends up alone in its block -/
+def lexDrop (rest : List DS) : DS → Bool
+  | .decl k items =>
+    (k == .let_ || k == .const_) &&
+      items.any (fun i => match i with | .assign _ _ e => !hasSideEffects e && mentionsVar e | _ => false) &&
+      (itemNames items).all (fun y => !(visitL y rest).2.2)
+  | _ => false
+
+def lexDropIn : List DS → List DS → Bool
+  | _, [] => false
+  | pre, s :: t => lexDrop (pre ++ t) s || lexDropIn (pre ++ [s]) t
+
 mutual
 /-- guard of the open finding K-C01-3 of C01 (`hasSideEffects` treats a binary operator over plain variables as pure):
-    an `if` whose branches can disappear and whose condition reads variables but counts as free of side effects -/
+    an `if` whose branches can disappear and whose condition reads variables but counts as free of side effects, or a
+    let / const declaration of a block that is dropped with such an initialiser -/
 def k3S : DS → Bool
   | .ifS c t e => (!hasSideEffects c && mentionsVar c && vanishes t && vanishes e) || k3S t || k3S e
-  | .block l => k3L l
-  | .forS _ _ _ _ b => k3L b
-  | .tryS b _ _ cb => k3L b || k3L cb
+  | .block l => lexDropIn [] l || k3L l
+  | .forS _ _ _ _ b => lexDropIn [] b || k3L b
+  | .tryS b _ _ cb => lexDropIn [] b || lexDropIn [] cb || k3L b || k3L cb
   | .fn _ _ _ body => k3L body
   | _ => false
 def k3L : List DS → Bool
@@ -1144,68 +1220,6 @@ def endsInIf : Nat → DS → SM (Bool × DS)
        | none => pure (false, s))
     | _ => pure (false, s)
 end
-
-mutual
-/-- the name `x` occurs in an expression (as the visitor of `assignedByVar` sees `*js.Var` nodes) -/
-def namedE (x : String) : DE → Bool
-  | .var y _ => y == x
-  | .assign y _ e => y == x || namedE x e
-  | .postinc y _ => y == x
-  | .call f a => namedE x f || namedEL x a
-  | .bin _ a b => namedE x a || namedE x b
-  | .not e => namedE x e
-  | .typeof e => namedE x e
-  | .cond c a b => namedE x c || namedE x a || namedE x b
-  | .comma l => namedEL x l
-  | .group e => namedE x e
-  | .hdecl l => namedEL x l
-  | _ => false
-def namedEL (x : String) : List DE → Bool
-  | [] => false
-  | a :: t => namedE x a || namedEL x t
-end
-
-def namedOE (x : String) : Option DE → Bool
-  | none => false
-  | some e => namedE x e
-
-/-- (declared, assigned, used) of the visitor on the items of one `var` declaration: the bindings are not uses, the
-    initialisers are walked -/
-def visitItems (x : String) : List DE → Bool × Bool × Bool
-  | [] => (false, false, false)
-  | .var y _ :: t => let r := visitItems x t; (y == x || r.1, r.2.1, r.2.2)
-  | .assign y _ e :: t => let r := visitItems x t; (y == x || r.1, y == x || r.2.1, namedE x e || r.2.2)
-  | _ :: t => visitItems x t
-
-def or3 (a b : Bool × Bool × Bool) : Bool × Bool × Bool := (a.1 || b.1, a.2.1 || b.2.1, a.2.2 || b.2.2)
-
-mutual
-/-- the visitor of `assignedByVar` below a statement, not into nested functions -/
-def visitS (x : String) : DS → Bool × Bool × Bool
-  | .expr e => (false, false, namedE x e)
-  | .decl k items =>
-    if k == .var || k == .hoisted then visitItems x items
-    else (false, false, items.any (fun i => match i with
-      | .var y _ => y == x
-      | .assign y _ e => y == x || namedE x e
-      | _ => false))
-  | .ifS c t e => or3 (false, false, namedE x c) (or3 (visitS x t) (visitS x e))
-  | .block l => visitL x l
-  | .forS _ i c p b => or3 (visitS x i) (or3 (false, false, namedOE x c || namedOE x p) (visitL x b))
-  | .ret e => (false, false, namedOE x e)
-  | .throw e => (false, false, namedE x e)
-  | .tryS b y _ cb => or3 (visitL x b) (or3 (false, false, y == x) (visitL x cb))
-  | _ => (false, false, false)
-def visitL (x : String) : List DS → Bool × Bool × Bool
-  | [] => (false, false, false)
-  | s :: t => or3 (visitS x s) (visitL x t)
-end
-
-/-- `assignedByVar(block, name)` of docs/C01D-fix-2.patch: the catch block redeclares the name with `var` and either
-    initialises it or uses the name -/
-def assignsVarL (x : String) (cb : List DS) : Bool :=
-  let r := visitL x cb
-  r.1 && (r.2.1 || r.2.2)
 
 mutual
 /-- `assignedByVar(stmt.Catch, v.Data)` for the catch parameter with identity `rid` somewhere in the program -/
